@@ -33,7 +33,7 @@ try:
             res["suite_output"] = out_suite[-1500:]
         # rebased patch (against the verified base) for later application
         run("git checkout go.sum 2>/dev/null; rm -rf test/seeded", r)
-        rc_d, diff = run("git diff -- . ':(exclude)go.sum' ':(exclude)go.mod'", r)
+        rc_d, diff = run("git add -N . && git diff -- . ':(exclude)go.sum' ':(exclude)go.mod'", r)
         res["_diff"] = diff
     else:
         res["apply_error"] = out_ap[:500]
